@@ -449,7 +449,9 @@ impl LocalPeerService {
         match msg {
             LocalEvent::RoomDefinitionChanged(room) => {
                 let key = remote_key.lock().await;
-                if room.has_user(&key) {
+                //only a user that is currently enabled in the room is admitted:
+                //has_user() also matches disabled users and users whose entry is not valid yet
+                if room.is_user_valid_at(&key, crate::date_utils::now()) {
                     inbound_query_service.add_allowed_room(room.id);
                     Self::send_event(event_sender, RemoteEvent::RoomDefinitionChanged(room.id))
                         .await
